@@ -558,9 +558,9 @@ func genBufScenario(rng *rand.Rand, profile string, mode string) *BScenario {
 	case "reclaim":
 		ws = []w{{"put", 25}, {"get", 30}, {"commit", 25}, {"rollback", 4}, {"newc", 5}, {"close", 8}, {"size", 3}}
 	case "wake":
-		ws = []w{{"put", 22}, {"get", 40}, {"commit", 8}, {"rollback", 5}, {"cancel", 10}, {"newc", 5}, {"close", 4}, {"bclose", 3}}
+		ws = []w{{"put", 22}, {"get", 40}, {"commit", 8}, {"rollback", 5}, {"cancel", 10}, {"newc", 5}, {"close", 4}, {"bclose", 3}, {"diff", 4}, {"size", 2}}
 	case "close":
-		ws = []w{{"put", 15}, {"get", 25}, {"commit", 12}, {"rollback", 6}, {"cancel", 6}, {"newc", 8}, {"close", 14}, {"bclose", 9}, {"size", 2}, {"slice", 2}}
+		ws = []w{{"put", 15}, {"get", 25}, {"commit", 12}, {"rollback", 6}, {"cancel", 6}, {"newc", 8}, {"close", 14}, {"bclose", 9}, {"size", 2}, {"slice", 2}, {"diff", 4}}
 	default: // fifo
 		ws = []w{{"put", 30}, {"get", 35}, {"commit", 12}, {"rollback", 8}, {"newc", 8}, {"close", 3}, {"slice", 2}, {"diff", 2}}
 	}
